@@ -178,6 +178,8 @@ type Frame struct {
 	fn      *ssa.Function
 	env     map[ssa.Value]Val
 	visited map[*ssa.BasicBlock]bool
+	unroll  map[*ssa.BasicBlock]int // loop headers executed concretely (constant small trip count): visits so far
+	entries map[*ssa.BasicBlock]int // symbolic loop headers: how often the loop was entered from outside (re-entry inside an unrolled loop)
 	depth   int
 	tag     string // loop tag prefix inherited from callers
 	id      int
@@ -192,6 +194,18 @@ func (f *Frame) clone() *Frame {
 	n.visited = make(map[*ssa.BasicBlock]bool, len(f.visited))
 	for k, v := range f.visited {
 		n.visited[k] = v
+	}
+	if f.unroll != nil {
+		n.unroll = make(map[*ssa.BasicBlock]int, len(f.unroll))
+		for k, v := range f.unroll {
+			n.unroll[k] = v
+		}
+	}
+	if f.entries != nil {
+		n.entries = make(map[*ssa.BasicBlock]int, len(f.entries))
+		for k, v := range f.entries {
+			n.entries[k] = v
+		}
 	}
 	return n
 }
@@ -321,10 +335,131 @@ func (x *Explorer) loopsOf(fn *ssa.Function) *loopInfo {
 func (x *Explorer) loopTag(fr *Frame, b *ssa.BasicBlock) string {
 	li := x.loopsOf(fr.fn)
 	h := li.inner[b]
+	if h != nil && fr.unroll != nil {
+		if _, un := fr.unroll[h]; un {
+			// a concretely unrolled loop is straight-line code: the innermost symbolic loop around it counts
+			var best *ssa.BasicBlock
+			for hh, body := range li.body {
+				if _, u2 := fr.unroll[hh]; u2 || !body[b] {
+					continue
+				}
+				if best == nil || len(body) < len(li.body[best]) {
+					best = hh
+				}
+			}
+			h = best
+		}
+	}
 	if h == nil {
 		return fr.tag
 	}
-	return fr.tag + fmt.Sprintf("%s.L%d/", fr.fn.Name(), h.Index)
+	return fr.tag + fr.headerTag(h)
+}
+
+// headerTag names a symbolic loop; a loop entered again from outside (it sits inside a concretely
+// unrolled loop) gets a fresh name per entry so that its variables are not confused with the earlier run's.
+func (fr *Frame) headerTag(h *ssa.BasicBlock) string {
+	if n := fr.entries[h]; n > 1 {
+		return fmt.Sprintf("%s.L%d#%d/", fr.fn.Name(), h.Index, n)
+	}
+	return fmt.Sprintf("%s.L%d/", fr.fn.Name(), h.Index)
+}
+
+func containsFuncType(t types.Type, depth int) bool {
+	if depth > 3 {
+		return false
+	}
+	switch u := t.Underlying().(type) {
+	case *types.Signature:
+		return true
+	case *types.Pointer:
+		return containsFuncType(u.Elem(), depth+1)
+	case *types.Struct:
+		for i := 0; i < u.NumFields(); i++ {
+			if containsFuncType(u.Field(i).Type(), depth+1) {
+				return true
+			}
+		}
+	}
+	return false
+}
+
+// constantTrip: the loop at header b runs a small constant number of times that is known now — its exit
+// test compares (index φ + c) with a value that evaluates to a constant ≤ 8, the φ starting from a
+// constant (the shape of `for i := range <literal slice>` and `for i := 0; i < 3; i++`).
+func (x *Explorer) constantTrip(fr *Frame, st *State, b, pred *ssa.BasicBlock) bool {
+	if len(b.Instrs) == 0 {
+		return false
+	}
+	ifi, ok := b.Instrs[len(b.Instrs)-1].(*ssa.If)
+	if !ok {
+		return false
+	}
+	bo, ok := ifi.Cond.(*ssa.BinOp)
+	if !ok || bo.Block() != b {
+		return false
+	}
+	switch bo.Op {
+	case token.LSS, token.LEQ, token.GTR, token.GEQ, token.NEQ:
+	default:
+		return false
+	}
+	isIdx := func(v ssa.Value) bool {
+		for i := 0; i < 3; i++ {
+			switch y := v.(type) {
+			case *ssa.Phi:
+				if y.Block() != b {
+					return false
+				}
+				_, isK := x.eval(fr, st, y.Edges[predIndex(b, pred)]).(*KConst)
+				return isK
+			case *ssa.BinOp:
+				if _, isC := y.Y.(*ssa.Const); isC && (y.Op == token.ADD || y.Op == token.SUB) && y.Block() == b {
+					v = y.X
+					continue
+				}
+				return false
+			default:
+				return false
+			}
+		}
+		return false
+	}
+	bound := func(v ssa.Value) bool {
+		if in, isInstr := v.(ssa.Instruction); isInstr && in.Block() == b {
+			return false // computed inside the header: not known before the loop
+		}
+		// only tables of code are unrolled — a literal slice whose elements carry function values (a
+		// table of steps / cases). Loops over data stay symbolic: one iteration stands for all, and the
+		// path count stays a sum instead of a product.
+		call, isCall := v.(*ssa.Call)
+		if !isCall || len(call.Call.Args) != 1 {
+			return false
+		}
+		if bi, isB := call.Call.Value.(*ssa.Builtin); !isB || bi.Name() != "len" {
+			return false
+		}
+		var et types.Type
+		switch tt := call.Call.Args[0].Type().Underlying().(type) {
+		case *types.Slice:
+			et = tt.Elem()
+		case *types.Array:
+			et = tt.Elem()
+		}
+		if et == nil || !containsFuncType(et, 0) {
+			return false
+		}
+		k, isK := x.eval(fr, st, v).(*KConst)
+		if !isK {
+			return false
+		}
+		var n int64
+		if _, err := fmt.Sscanf(k.S, "%d", &n); err != nil {
+			return false
+		}
+		return n >= 0 && n <= 8
+	}
+	return (isIdx(bo.X) && bound(bo.Y)) || (isIdx(bo.Y) && bound(bo.X))
 }
 
 // Explore runs an entry point. params gives the abstract arguments.
@@ -389,7 +524,45 @@ func (x *Explorer) runBlock(fr *Frame, b *ssa.BasicBlock, pred *ssa.BasicBlock, 
 	}
 	li := x.loopsOf(fr.fn)
 	if li.headers[b] {
-		tag := fr.tag + fmt.Sprintf("%s.L%d/", fr.fn.Name(), b.Index)
+		if _, un := fr.unroll[b]; un || (!fr.visited[b] && pred != nil && !li.body[b][pred] && x.constantTrip(fr, st, b, pred)) {
+			// concrete execution of a constant-trip loop: φs take their incoming values, the header may be revisited
+			if fr.unroll == nil {
+				fr.unroll = map[*ssa.BasicBlock]int{}
+			}
+			if pred != nil && !li.body[b][pred] {
+				fr.unroll[b] = 0 // (re-)entered from outside
+			}
+			fr.unroll[b]++
+			if fr.unroll[b] > 12 {
+				x.cut = true
+				k(st, nil, exitCut, "")
+				return
+			}
+			var phis []*ssa.Phi
+			var vals []Val
+			for _, in := range b.Instrs {
+				ph, ok := in.(*ssa.Phi)
+				if !ok {
+					break
+				}
+				phis = append(phis, ph)
+				vals = append(vals, x.eval(fr, st, ph.Edges[predIndex(b, pred)]))
+			}
+			for i, ph := range phis {
+				fr.env[ph] = vals[i]
+			}
+			x.runInstrs(fr, b, firstNonPhi(b), st, k)
+			return
+		}
+		if pred != nil && !li.body[b][pred] {
+			// entry from outside the loop
+			if fr.entries == nil {
+				fr.entries = map[*ssa.BasicBlock]int{}
+			}
+			fr.entries[b]++
+			fr.visited[b] = false
+		}
+		tag := fr.tag + fr.headerTag(b)
 		if fr.visited[b] {
 			// back edge: end of one symbolic iteration
 			for i := range st.loops {
@@ -952,6 +1125,9 @@ func (x *Explorer) step(fr *Frame, st *State, in ssa.Instruction) {
 }
 
 func zeroVal(t types.Type) Val {
+	if t == nil {
+		return &Sym{N: "zero"}
+	}
 	switch u := t.Underlying().(type) {
 	case *types.Basic:
 		switch {
@@ -1340,6 +1516,27 @@ func (x *Explorer) binop(fr *Frame, st *State, ins *ssa.BinOp) Val {
 		if c, ok := a.(*TCmpV); ok {
 			return tcmpFact(c, op, b)
 		}
+		if ka, okA := a.(*KConst); okA {
+			if kb, okB := b.(*KConst); okB {
+				if na, nb, ok := twoInts(ka.S, kb.S); ok {
+					var r bool
+					switch op {
+					case token.LSS:
+						r = na < nb
+					case token.GTR:
+						r = na > nb
+					case token.LEQ:
+						r = na <= nb
+					case token.GEQ:
+						r = na >= nb
+					}
+					if r {
+						return kTrue
+					}
+					return kFalse
+				}
+			}
+		}
 		if c, ok := a.(*CmpV); ok {
 			return cmpFact(c, op, b)
 		}
@@ -1363,9 +1560,37 @@ func (x *Explorer) binop(fr *Frame, st *State, ins *ssa.BinOp) Val {
 		if okA && okB && op == token.ADD && strings.HasPrefix(ka.S, `"`) && strings.HasPrefix(kb.S, `"`) {
 			return &KConst{S: ka.S[:len(ka.S)-1] + kb.S[1:]}
 		}
+		if okA && okB {
+			if na, nb, ok := twoInts(ka.S, kb.S); ok && isIntegerType(ins.Type()) {
+				switch op {
+				case token.ADD:
+					return &KConst{S: fmt.Sprint(na + nb)}
+				case token.SUB:
+					return &KConst{S: fmt.Sprint(na - nb)}
+				case token.MUL:
+					return &KConst{S: fmt.Sprint(na * nb)}
+				}
+			}
+		}
 		return &Sym{N: "(" + vstr(a) + " " + op.String() + " " + vstr(b) + ")", T: ins.Type()}
 	}
 	return &Sym{N: "(" + vstr(a) + " " + op.String() + " " + vstr(b) + ")", T: ins.Type()}
+}
+
+func twoInts(a, b string) (int64, int64, bool) {
+	var na, nb int64
+	if _, err := fmt.Sscanf(a, "%d", &na); err != nil || fmt.Sprint(na) != a {
+		return 0, 0, false
+	}
+	if _, err := fmt.Sscanf(b, "%d", &nb); err != nil || fmt.Sprint(nb) != b {
+		return 0, 0, false
+	}
+	return na, nb, true
+}
+
+func isIntegerType(t types.Type) bool {
+	bt, ok := t.Underlying().(*types.Basic)
+	return ok && bt.Info()&types.IsInteger != 0
 }
 
 func isK(v Val, s string) bool {
